@@ -45,7 +45,7 @@ class Folder:
 
     def fold(self, node: ast.AST):
         if isinstance(node, ast.Constant):
-            if isinstance(node.value, (int, float, complex, bool)) or node.value is None:
+            if isinstance(node.value, (int, float, complex, bool, str)) or node.value is None:
                 return node.value
             raise Unfoldable(f"constant {node.value!r}")
         if isinstance(node, (ast.List, ast.Tuple)):
@@ -158,7 +158,7 @@ class Folder:
             if isinstance(sl, ast.Slice):
                 lo = self.fold(sl.lower) if sl.lower is not None else None
                 hi = self.fold(sl.upper) if sl.upper is not None else None
-                if isinstance(base, list) and sl.step is None and all(v is None or (isinstance(v, int) and not isinstance(v, bool)) for v in (lo, hi)):
+                if isinstance(base, (list, str)) and sl.step is None and all(v is None or (isinstance(v, int) and not isinstance(v, bool)) for v in (lo, hi)):
                     return base[lo:hi]
                 raise Unfoldable("slice")
             i = self.fold(sl)
@@ -261,6 +261,19 @@ class Folder:
                     return _ew(lambda x, y: x**y, a, b)
                 except (TypeError, ZeroDivisionError, OverflowError) as exc:
                     raise Unfoldable(str(exc))
+            if nm in ("bin", "len", "reversed", "list", "str") and len(node.args) == 1 and not node.keywords:
+                v = self.fold(node.args[0])
+                if nm == "bin" and isinstance(v, int) and not isinstance(v, bool):
+                    return bin(v)
+                if nm == "len" and isinstance(v, (list, str)):
+                    return len(v)
+                if nm == "reversed" and isinstance(v, (list, str)):
+                    return list(reversed(v))
+                if nm == "list" and isinstance(v, (list, str)):
+                    return list(v)
+                if nm == "str" and isinstance(v, (int, str)) and not isinstance(v, bool):
+                    return str(v)
+                raise Unfoldable(f"call {nm}")
             if short == "bool" and nm == "bool" and node.args:
                 v = self.fold(node.args[0])
                 if isinstance(v, list):
